@@ -17,13 +17,23 @@ PATCHES = {
          "\tfor i := range seed {\n\t\tseed[i] = byte(i*7 + 1)\n\t}\n\tglobalRand.state.Init(*seed)\n"),
         # per-map seeds from the dedicated stream
         ("func maps_rand() uint64 {\n\treturn rand()\n}",
-         "func maps_rand() uint64 {\n\treturn verifNext()\n}"),
+         "func maps_rand() uint64 {\n"
+         "\t// verif: inside a bubble every map draw returns the per-run constant, so map\n"
+         "\t// iteration order is a function of the run seed and the map's own history only\n"
+         "\t// (lazily initialised library maps must not shift the draws of later maps).\n"
+         "\tif gp := getg(); gp != nil && gp.bubble != nil {\n\t\treturn verifMapSeed\n\t}\n"
+         "\treturn rand()\n}"),
         # dedicated seeded stream (appended)
         ("func legacy_fastrand64() uint64 {\n\treturn rand()\n}\n",
          "func legacy_fastrand64() uint64 {\n\treturn rand()\n}\n"
          "\nvar verifRandState uint64 = 0x9E3779B97F4A7C15\n"
+         "var verifMapSeed uint64 = 0x2545F4914F6CDD1D\n"
          "\n//go:linkname verifRandSeed\n"
-         "func verifRandSeed(s uint64) { verifRandState = s }\n"
+         "func verifRandSeed(s uint64) {\n"
+         "\tverifRandState = s\n"
+         "\tverifMapSeed = (s ^ 0xD6E8FEB86659FD93) * 0xBF58476D1CE4E5B9\n"
+         "\tverifMapSeed ^= verifMapSeed >> 29\n"
+         "}\n"
          "\n//go:nosplit\n"
          "func verifNext() uint64 {\n"
          "\tverifRandState += 0x9E3779B97F4A7C15\n"
@@ -39,7 +49,8 @@ PATCHES = {
     ],
     "runtime/select.go": [
         ("\t\tj := cheaprandn(uint32(norder + 1))\n",
-         "\t\tj := verifNextN(uint32(norder + 1))\n"),
+         "\t\tvar j uint32\n"
+         "\t\tif gp.bubble != nil {\n\t\t\tj = verifNextN(uint32(norder + 1))\n\t\t} else {\n\t\t\tj = cheaprandn(uint32(norder + 1))\n\t\t}\n"),
     ],
     "runtime/time.go": [
         ("\t\t\tt.rand = cheaprand()\n",
